@@ -154,8 +154,10 @@ def find_sub(node, name):
     return None
 
 
-UNSAFE_CMD_FLAGS = {"args_conflicts_with_subcommands", "subcommand_precedence_over_arg", "allow_external_subcommands",
+UNSAFE_CMD_FLAGS = {"args_conflicts_with_subcommands", "allow_external_subcommands",
                     "allow_missing_positional", "multicall"}
+# `subcommand_precedence_over_arg` is a per-command setting (it is not propagated): at a level that sets it a word naming a
+# subcommand is that subcommand even while a multiple positional is being filled; the scan follows the level it is at.
 
 
 def scan_prefix(root, words):
@@ -227,7 +229,8 @@ def scan_prefix(root, words):
             i += 2 if consumed_next else 1
             continue
         s = find_sub(level, w)
-        if s is not None and not in_pos:
+        if s is not None and (not in_pos or "subcommand_precedence_over_arg" in level["flags"]):
+            in_pos = False
             level = s
             pc = 0
             i += 1
@@ -606,6 +609,42 @@ def gen_states(rng, tier, mode, maxlen_full, nrandom):
     return out
 
 
+def precedence_commands():
+    """subcommand_precedence_over_arg differs between the levels of one tree (seeded change C18-2): the level reached
+    by `run files.. build` depends on the setting of `run`, not of the root"""
+    def arg(id_, *items):
+        return "(arg %s%s)" % (h(id_), "".join(" " + x for x in items))
+    out = []
+    for root_p in (False, True):
+        for mid_p in (False, True):
+            leaf = "(sub (cmd %s %s %s))" % (h(b"build"), arg(b"rel", "(long %s)" % h(b"release"), "(action settrue)"),
+                                              arg(b"tgt", "(long %s)" % h(b"target"), "(short %d)" % ord("t"), "(action set)"))
+            mid = "(sub (cmd %s%s %s %s %s %s))" % (
+                h(b"run"), " (set subcommand_precedence_over_arg)" if mid_p else "",
+                arg(b"jobs", "(long %s)" % h(b"jobs"), "(short %d)" % ord("j"), "(action set)"),
+                arg(b"vb", "(long %s)" % h(b"verbose"), "(short %d)" % ord("v"), "(action settrue)"),
+                arg(b"files", "(num 1 inf)"), leaf)
+            root = "(cmd %s%s %s %s %s)" % (
+                h(b"p"), " (set subcommand_precedence_over_arg)" if root_p else "",
+                arg(b"quiet", "(long %s)" % h(b"quiet"), "(short %d)" % ord("q"), "(action settrue)"),
+                arg(b"items", "(num 1 inf)"), mid)
+            out.append(root)
+    return out
+
+
+def gen_precedence(mode):
+    out = []
+    lines = [[b"run", b"a", b"build"], [b"run", b"build"], [b"a", b"run"], [b"a", b"run", b"b", b"build"],
+             [b"run", b"a", b"b", b"build"], [b"run", b"-v", b"a", b"build"], [b"run"], [b"a"], [b"run", b"a"],
+             [b"-q", b"run", b"a", b"build", b"--release"]]
+    words = [b"", b"-", b"--", b"--r", b"--j", b"--t", b"b", b"r", b"-t"]
+    for c in precedence_commands():
+        for ln in lines:
+            for w in words:
+                out.append(case_line(mode, c, [b"prog"] + ln + [w], len(ln) + 1))
+    return out
+
+
 def gen_pending(mode):
     """directed family: an option spelling, then any token (its value, or not), then the word under the
     cursor - every (pending option x token shape x word) combination on the fixed commands"""
@@ -664,11 +703,11 @@ def coverage(cases, tag):
 def streams(tier, rng):
     quick = tier == "quick"
     dyn_cases = gen_random(rng, 120 if quick else 1500, 3, "dyn")
-    st_cases = gen_states(rng, tier, "dyn", 2 if quick else 3, 400 if quick else 6000)
+    st_cases = gen_states(rng, tier, "dyn", 2 if quick else 3, 400 if quick else 6000) + gen_precedence("dyn")
     acc_cases = gen_random(rng, 60 if quick else 500, 2, "dynaccept", conventional=False) \
         + gen_random(rng, 80 if quick else 700, 2, "dynaccept", conventional=True) \
         + gen_states(rng, tier, "dynaccept", 1 if quick else 2, 250 if quick else 3000) \
-        + gen_pending("dynaccept")
+        + gen_pending("dynaccept") + gen_precedence("dynaccept")
     return [
         Stream("dyn", dyn_cases, oracle=total_oracle, area="dynamic", project=project, nontrivial=nontrivial,
                describe={"state x word-shape": coverage(dyn_cases, "dyn")}),
